@@ -264,79 +264,88 @@ def r04_5(ctx):
                           found="except %s" % (ast.unparse(h.type) if h.type else "<bare>"), fi=f, node=h)
 
 
-def shift_semantics(ctx):
-    """Instantiate the offset handling of eval_at_control over nodes and offsets."""
-    prog = ctx.prog
-    f = prog.own_method("SamplingMethod", "eval_at_control")
-    sc = ctx.scope(f)
-    k = f.params[3]
-    loops = [l for l in walk_no_nested(f.node) if isinstance(l, ast.For)]
-    loop = None
-    for l in loops:
-        if any(is_call_to(c, "_eval_at_control", "self") for c in ast.walk(l)) and loop is None:
-            loop = l
-    if loop is None:
-        raise AnalysisError("eval_at_control: loop over offsets with a call to self._eval_at_control not found")
-    off = loop.target.id if isinstance(loop.target, ast.Name) else None
-    # for offset, group in table.items(): the key of the per-offset table is the offset
-    if off is None and isinstance(loop.target, ast.Tuple) and loop.target.elts and isinstance(loop.target.elts[0], ast.Name) and isinstance(loop.iter, ast.Call) \
-            and isinstance(loop.iter.func, ast.Attribute) and loop.iter.func.attr == "items":
-        off = loop.target.elts[0].id
-    if off is None:
-        raise AnalysisError("eval_at_control: the offset variable of the per-offset loop could not be identified")
-    raises = []
-    for st in loop.body:
-        if isinstance(st, ast.If) and any(isinstance(x, ast.Raise) for x in st.body):
-            exc = [x for x in st.body if isinstance(x, ast.Raise)][0]
-            raises.append((st.test, ast.unparse(exc.exc) if exc.exc else ""))
-    calls = [c for c in ast.walk(loop) if is_call_to(c, "_eval_at_control", "self")]
-    return f, sc, k, off, raises, calls, loop
-
-
-@rule("R04.11", min_instances=40, desc="shift semantics of next/prev/offset: an instance is dropped iff the shifted node is outside [0,N]; otherwise the operand is evaluated at node+offset (final node = alias -1 = node N)")
+@rule("R04.11", min_instances=40, desc="shift semantics of next/prev/offset: an instance is dropped iff a shifted node is outside [0,N]; otherwise every operand is evaluated at node+offset (final node = alias -1 = node N) - decided on simulated calls of eval_at_control for N = 1..3, every node, single offsets -3..3 and mixed pairs")
 def r04_11(ctx):
-    f, sc, k, off, raises, calls, loop = shift_semantics(ctx)
-    ctx.check(len(calls) == 1 and len(calls[0].args) == 3, "eval_at_control shifted evaluation", detail="operand evaluation", expected="one self._eval_at_control(stage, operand, node) per offset",
-              found="%d calls" % len(calls), fi=f)
-    ctx.check(all(e.startswith("IndexError") for _, e in raises), "eval_at_control raises IndexError for dropped instances", detail="wrong exception type",
-              expected="IndexError", found=str([e for _, e in raises]), fi=f)
-    if len(calls) != 1:
-        return
-    target = calls[0].args[2]
-    bad_drop, bad_idx = [], []
-    cases = 0
+    """SamplingMethod.eval_at_control is *run* up to the point where the shifted operands have been resolved (the run is cut at the
+    first call that belongs to the un-shifted evaluation).  Scenario: the expression contains one placeholder symbol per offset of
+    the case; stage._offsets maps it to (operand, offset); self._eval_at_control(stage, operand, node) records the node."""
+    from ..sim import Sim, fresh_obj
+    from ..layout import Sym, LayoutUnknown, freeze
+    P = ctx.prog
+    f = P.own_method("SamplingMethod", "eval_at_control")
+    raises = [r for r in walk_no_nested(f.node) if isinstance(r, ast.Raise)]
+    ctx.check(bool(raises) and all(r.exc is not None and ast.unparse(r.exc).startswith("IndexError") for r in raises), "eval_at_control raises IndexError for dropped instances", detail="wrong exception type",
+              expected="IndexError", found=str([ast.unparse(r.exc) if r.exc else None for r in raises]), fi=f)
+
+    class _Cut(Exception):
+        pass
+
+    def h_defaultdict(s_, r, a, k, n):
+        import collections
+        from ..sim import Closure
+        fac = n.args[0] if n.args else None
+        if fac is None:
+            return collections.defaultdict(lambda: None)
+        if isinstance(fac, ast.Name) and fac.id in ("list", "dict"):
+            return collections.defaultdict(list if fac.id == "list" else dict)
+        if isinstance(fac, ast.Name) and fac.id in P.classes:
+            # a helper class of the repository as the factory: instances are built by the simulator
+            make = ast.Call(func=ast.Name(id=fac.id, ctx=ast.Load()), args=[], keywords=[])
+            return collections.defaultdict(lambda: s_.ev(make, {}, f))
+        if a and isinstance(a[0], Closure):
+            return collections.defaultdict(lambda a0=a[0]: s_.call_closure(a0, [], {}))
+        return NotImplemented
+
+    def cut(*a):
+        raise _Cut()
+    bad_drop, bad_idx, cases = [], [], 0
     for NN in (1, 2, 3):
         for kk in [-1] + list(range(NN)):
             node = NN if kk == -1 else kk
-            for o in range(-3, 4):
-                env = {k: kk, off: o, "self.N": NN, "len(self.U)": NN}
+            for offs in [(o,) for o in range(-3, 4)] + [(-1, 1), (1, -1), (-2, 1), (2, -1), (0, 1), (-1, 0)]:
+                syms = [fresh_obj("s%d" % q, off=o) for q, o in enumerate(offs)]
+                table = {freeze(sy): (Sym("operand", q), o) for q, (sy, o) in enumerate(zip(syms, offs))}
+                got = []
+                hooks = {"symvar": lambda s_, r, a, k, n, syms=syms: list(syms), "ca.symvar": lambda s_, r, a, k, n, syms=syms: list(syms),
+                         "._eval_at_control": lambda s_, r, a, k, n, got=got: (got.append((freeze(a[1]), a[2])), Sym("shifted", freeze(a[1]), a[2]))[1],
+                         "vvcat": lambda s_, r, a, k, n: list(a[0]) if a and isinstance(a[0], (list, tuple)) else NotImplemented,
+                         "defaultdict": h_defaultdict,
+                         ".get_DT_control_at": cut, ".get_DT_at": cut, "._expr_apply": cut}
+                sim = Sim(P, hooks=hooks)
+                me = fresh_obj("self", N=NN, M=1, Q=[], q=0, U=[Sym("U", q) for q in range(NN)], X=[Sym("X", q) for q in range(NN + 1)])
+                stage = fresh_obj("stage", _offsets=table)
+                outcome = None
                 try:
-                    dropped = any(bool(ceval(t, env, sc)) for t, _ in raises)
-                    idx = None
-                    if not dropped:
-                        # self.X has N+1 elements: an index outside [-(N+1), N] raises IndexError by itself
-                        idx = ceval(target, env, sc)
-                        if not (-(NN + 1) <= idx <= NN):
-                            dropped = True
-                    want_drop = not (0 <= node + o <= NN)
-                    cases += 1
-                    if dropped != want_drop:
-                        bad_drop.append((NN, kk, o, dropped))
-                        continue
-                    if not dropped:
-                        if not (idx == node + o or (idx == -1 and node + o == NN)):
-                            bad_idx.append((NN, kk, o, idx))
-                except Unknown as e:
-                    bad_drop.append((NN, kk, o, "unknown: %s" % e))
+                    sim.call(f, [me, stage, Sym("expr"), kk], {})
+                    outcome = "completed"
+                except _Cut:
+                    outcome = "kept"
+                except LayoutUnknown as e:
+                    if str(e).startswith("raise reached"):
+                        outcome = "dropped"
+                    else:
+                        raise AnalysisError("eval_at_control could not be simulated (N=%d k=%d offsets=%s): %s" % (NN, kk, offs, e))
+                if outcome == "completed":
+                    raise AnalysisError("eval_at_control: the simulated run did not reach the un-shifted evaluation (anchor moved?)")
+                cases += 1
+                want_drop = any(not (0 <= node + o <= NN) for o in offs)
+                if (outcome == "dropped") != want_drop:
+                    bad_drop.append((NN, kk, offs, outcome))
+                    continue
+                if not want_drop:
+                    nodes = sorted((q_, n_) for (q_, n_) in [(t[0], t[1]) for t in got])
+                    want_nodes = sorted((freeze([Sym("operand", q)]), node + o) for q, o in enumerate(offs))
+                    seen = sorted((op, (NN if nd == -1 else nd)) for op, nd in nodes)
+                    if not all(isinstance(nd, int) and -1 <= nd <= NN for _, nd in nodes) or seen != want_nodes:
+                        bad_idx.append((NN, kk, offs, [nd for _, nd in nodes]))
     ctx.note("shift_cases", cases)
-    for NN, kk, o, d in bad_drop[:6]:
-        ctx.fail("eval_at_control drop rule N=%d k=%d offset=%d" % (NN, kk, o), detail="instance %s although node+offset is %s the horizon" % (
-            "dropped" if d is True else "kept" if d is False else d, "inside" if 0 <= (NN if kk == -1 else kk) + o <= NN else "outside"),
-            expected="drop iff node+offset outside [0,N] (k=-1 denotes node N)", found=str(d), fi=f, node=loop)
-    for NN, kk, o, idx in bad_idx[:6]:
-        ctx.fail("eval_at_control shifted node N=%d k=%d offset=%d" % (NN, kk, o), detail="operand evaluated at the wrong node",
-                 expected="node %d" % ((NN if kk == -1 else kk) + o), found=str(idx), fi=f, node=calls[0])
-    for i in range(cases - len(bad_drop) - len(bad_idx)):
+    for NN, kk, offs, d in bad_drop[:6]:
+        ctx.fail("eval_at_control drop rule N=%d k=%d offsets=%s" % (NN, kk, list(offs)), detail="instance %s although a shifted node is %s the horizon" % (d, "inside" if d == "dropped" else "outside"),
+                 expected="drop iff some node+offset is outside [0,N] (k=-1 denotes node N)", found=str(d), fi=f)
+    for NN, kk, offs, idx in bad_idx[:6]:
+        ctx.fail("eval_at_control shifted node N=%d k=%d offsets=%s" % (NN, kk, list(offs)), detail="operand evaluated at the wrong node",
+                 expected="nodes %s" % [(NN if kk == -1 else kk) + o for o in offs], found=str(idx), fi=f)
+    for i_ in range(cases - len(bad_drop) - len(bad_idx)):
         ctx.obligations.setdefault("R04.11", []).append(("case", True))
 
 
@@ -574,7 +583,24 @@ def subject_to_table(ctx):
                     stored[(grid, sig)] = cons[where[0]][0]
             except LayoutUnknown as e:
                 table[(grid, sig)] = "<raise>" if "raise reached" in str(e) else "<unknown: %s>" % str(e)[:60]
+    # the options of the declaration are recorded under their own names (the transcription methods look them up by name)
+    opts = {"include_first": "IF", "include_last": "IL", "refine": "RF", "group_refine": "GR", "group_dim": "GD", "group_control": "GC"}
+    cons = {g: [] for g in GRIDS}
+    me = fresh_obj("self", _constraints=cons)
+    hooks = {".is_signal": lambda s_, r, a, k, n: True, "._set_transcribed": lambda s_, r, a, k, n: None,
+             "._parse_scale": lambda s_, r, a, k, n: "SC", "get_meta": lambda s_, r, a, k, n: Sym("meta"),
+             "dict": lambda s_, r, a, k, n: ({freeze(x): y for x, y in (s_.iterable(a[0], n) if not isinstance(a[0], (list, tuple, dict)) else (a[0].items() if isinstance(a[0], dict) else a[0]))} if a else dict(k))}
+    record = None
+    try:
+        sim = Sim(P, hooks=hooks)
+        sim.self_class = "Stage"
+        sim.call(f, [me, Sym("constr")], dict(opts, grid="control"))
+        if len(cons["control"]) == 1 and isinstance(cons["control"][0], tuple) and len(cons["control"][0]) == 3 and isinstance(cons["control"][0][2], dict):
+            record = {k: v for k, v in cons["control"][0][2].items()}
+    except LayoutUnknown as e:
+        record = "<unknown: %s>" % str(e)[:80]
     cache["r"] = (f, table, stored)
+    cache["record"] = (record, dict(opts, scale="SC", grid="control"))
     return cache["r"]
 
 
@@ -606,6 +632,12 @@ def r04_8(ctx):
     bad = {k: (table.get(k), v) for k, v in want.items() if k[0] is None or (k[0] != "no_such_grid" and not k[1]) if table.get(k) != v}
     ctx.check(not bad, "Stage.subject_to default grid and forcing of non-signals to 'point'", detail="grid classification",
               expected="no grid: 'control' for a signal, 'point' otherwise; a non-signal is stored under 'point' whatever grid was given", found=str(bad), fi=f, sample={"table": str(sorted(table.items(), key=str))[:300]})
+    record, want_rec = ctx.prog.__dict__["_subject_to_table"]["record"]
+    if isinstance(record, str) or record is None:
+        raise AnalysisError("Stage.subject_to: the recorded options could not be read from the simulated call: %s" % (record,))
+    wrong = {k: (record.get(k), v) for k, v in want_rec.items() if record.get(k) != v}
+    ctx.check(not wrong, "Stage.subject_to records every placement option under its own name", detail="an option of the declaration is stored under another option's name (include_first <-> include_last: the other end point is skipped)",
+              expected="args[name] = the argument called name, for %s" % sorted(want_rec), found=str(wrong)[:200], fi=f)
     bad = {k: (table.get(k), v) for k, v in want.items() if k == ("point", True) and table.get(k) != v}
     ctx.check(not bad, "Stage.subject_to rejects a signal on grid 'point'", detail="signal on point grid accepted", expected="raise", found=str(bad), fi=f)
     bad = {k: (table.get(k), v) for k, v in want.items() if k[1] and k[0] not in (None, "point", "no_such_grid") and table.get(k) != v}
